@@ -125,3 +125,23 @@ func Observe(label string, v int64) { Trace = append(Trace, fmt.Sprintf("%s=%d",
 func Time(label string) time.Time { return time.Unix(int64(next(label)), 0) }
 
 func TimeUnix(sec int64) time.Time { return time.Unix(sec, 0) }
+
+// UF is the value of the uninterpreted function fn at (a, b, c).
+func UF(fn string, a, b, c uint64) byte {
+	return byte(table[fn+"["+strconv.FormatUint(a, 10)+","+strconv.FormatUint(b, 10)+","+strconv.FormatUint(c, 10)+"]"])
+}
+
+// MapBytes sets dst[k] = UF(fn, tag, k, src[k]) for every k < len(src) (dst and src may be the same slice).
+func MapBytes(dst, src []byte, fn string, tag uint64) {
+	for k := range src {
+		dst[k] = UF(fn, tag, uint64(k), uint64(src[k]))
+	}
+}
+
+// SameSlice reports whether a and b start at the same element and have the same length.
+func SameSlice(a, b []byte) bool {
+	if len(a) != len(b) {
+		return false
+	}
+	return len(a) == 0 || &a[0] == &b[0]
+}
